@@ -71,7 +71,7 @@ func (e *eng) probeSideWriter() (bad []string) {
 		}
 		mid := e.db.ReadTxn()
 		side := e.db.WriteTxn(t0)
-		t0.Insert(side, mk(1, 10+round))  // update
+		t0.Insert(side, mk(1, 10+round))      // update
 		t0.Insert(side, mk(byte(4+round), 1)) // insert
 		if o, _, ok := t0.Get(side, idIndex.Query([]byte{byte(3 - round)})); ok {
 			t0.Delete(side, o) // delete
